@@ -479,6 +479,10 @@ pub fn run_c11(ctx: &Ctx) -> i32 {
             caps.push(format!("wall-clock budget reached after completing depth {}", depth));
             break;
         }
+        if ctx.vio_count.load(std::sync::atomic::Ordering::Relaxed) > 0 {
+            caps.push(format!("stopped after depth {} because violations were found (breadth-first: they are shortest ones)", depth));
+            break;
+        }
         let results: Vec<Vec<(RState, u64)>> = frontier
             .par_chunks(8)
             .map(|ch| {
